@@ -44,6 +44,8 @@ SHAPES = [
      'input: q/1. output: p/1.'),
     ('formula-names', 'external-spec', 'spec[_n]: forall X (p(X) -> q(X)). spec[_n]: forall X (q(X) -> p(X)). spec: #true. '
      'assumption[formula_0_n]: forall X (q(X) -> X = X). spec[n]: forall X (p(X) <-> q(X)).', 'p(X) :- q(X).', 'input: q/1. output: p/1.'),
+    ('formula-names-with-break-suffixes', 'external-spec', 'spec[n]: forall X (p(X) <-> q(X)). spec[n_0]: forall X (p(X) -> q(X)). '
+     'spec[n_1]: forall X (q(X) -> p(X)). spec[n_0_0]: forall X (p(X) <-> q(X) and X = X).', 'p(X) :- q(X).', 'input: q/1. output: p/1.'),
     ('formula-name-equals-declaration-name', 'external-spec', 'spec[predicate_0]: forall X (p(X) -> q(X)). '
      'spec[type_symbol_0]: p(a) -> q(a). spec[symbol_order_0]: p(b) -> q(b).', 'p(X) :- q(X).', 'input: q/1. output: p/1.'),
     ('outline-with-renamed-symbol', 'external-outline', 'q :- p(X), X != q. r(X) :- p(X), not q.', 'q :- p(X), q != X. r(X) :- p(X), not q.',
@@ -60,6 +62,14 @@ SHAPES = [
      'assumption: forall X (q(X) -> X != c$g and X != d$s and X > 0 > k$i * 2). spec: forall X (p(X) -> not X = e).',
      'p(X) :- q(X), X = 1..n, X = 3 + m.', 'input: n -> integer. input: m -> integer. input: k -> integer. input: c -> general. input: d -> symbol. '
      'input: q/1. output: p/1.'),
+    # a direction with nothing to prove must yield no problem at all (never a problem without a conjecture)
+    ('backward-direction-empty', 'external-spec', 'spec(forward): forall X (q(X) <-> p(X)).', 'q(X) :- p(X).', 'input: p/1. output: q/1.'),
+    ('forward-direction-empty', 'external-spec', 'spec(backward): forall X (q(X) <-> p(X)). assumption: forall X (p(X) -> X > 0).',
+     'q(X) :- p(X).', 'input: p/1. output: q/1.'),
+    ('spec-of-assumptions-only', 'external-spec', 'assumption: forall X (p(X) -> X > 0).', 'q(X) :- p(X).', 'input: p/1. output: q/1.'),
+    ('no-public-definition', 'external', 'aux(X) :- p(X).', 'aux(X) :- p(X), X = X.', 'input: p/1.'),
+    ('no-public-definition-with-outline', 'external-outline', 'aux(X) :- p(X).', 'aux(X) :- p(X), X = X.', 'input: p/1.',
+     'lemma(forward): forall X (p(X) -> p(X)). lemma(backward): forall X (p(X) or not p(X)).'),
     ('symbols-in-rare-positions', 'strong', 'p(X) :- q(X), X != a, b < X, not r(c, X). r(d, e) :- not q(f).',
      'p(X) :- q(X), a != X, not r(c, X), X > b. r(d, e) :- not not r(d, e), not q(f).', None),
     ('many-conjectures', 'strong', 'p. q. r. s.', 'p :- q. q :- r. r :- s. s.', None),
@@ -194,7 +204,7 @@ def check_item(item):
             else:
                 req, resp = run_task(b, (name, 'spec' if kind == 'external-spec' else 'program', left, right, ug), direction, dec, simp, eqb,
                                      outline=outline)
-                if resp[0][0] == 'refused':
+                if resp[0][:1] == ('refused',):
                     out.append({'family': item['family'], 'key': item['label'] + '#refused', 'input': item['label'], 'verdict': 'skipped',
                                 'detail': 'task refused: %s' % str(resp[0][1])[:200]})
                     break
@@ -207,7 +217,14 @@ def check_item(item):
             out.append({'family': item['family'], 'key': item['label'] + '#panic', 'input': item['label'], 'verdict': 'observation',
                         'detail': 'panic (C16 territory): %s' % e})
             break
-        for p in parse_problems(payload):
+        probs_all = parse_problems(payload)
+        dup = well_formed(probs_all)
+        dup = [d for d in dup if 'duplicate problem names' in d]
+        if dup:
+            out.append({'family': item['family'], 'key': '%s#%s#problem-names' % (item['label'], dec), 'input_key': item['label'], 'input': item['label'],
+                        'verdict': 'violation-concrete', 'signature': 'tff:duplicate-problem-name', 'detail': '; '.join(dup), 'nontrivial': True,
+                        'replay': {'request': render(req), 'expected': render(resp)}})
+        for p in probs_all:
             if p['text'] in seen:
                 continue
             seen.add(p['text'])
